@@ -156,6 +156,9 @@ impl Check for Refactor {
         let mut rng = Rng::for_case(seed, "refactor", case);
         let sub = rng.chance(1, 2);
         let lib = refactor_lib(&mut rng, tier, sub);
+        // hook H2: the invariant walker sees every graph the handlers build (patch graphs included)
+        crate::hooks::install_graph_hook();
+        crate::hooks::graph_hook_reset();
         lsp::reset_log();
         mon::drain_thread_panics();
         let dir = mon::scratch_dir("c09");
@@ -240,6 +243,11 @@ impl Check for Refactor {
                     }
                 }
             }
+        }
+        let (h2_graphs, h2_viol) = crate::hooks::graph_hook_take();
+        rep.count("h2_graphs_walked", h2_graphs);
+        for (c, d) in h2_viol.into_iter().take(2) {
+            rep.violate(&format!("forest-{}", c), "h2", d, json!({"case": case}));
         }
         rep.count("h1_events", lsp::events_since(0).len() as u64);
         if !s.shutdown() {
